@@ -2,8 +2,10 @@
    storage pools + bit masks, generators' fit, dataset_t::update bookkeeping, drop/shuffle flags, select / flatten /
    targets) from the DS/FEAT/SET/GEN/OP lines and compares every observation line of the implementation with
    what the model computes: `MISMATCH <case> <line prefix> // model: ...`.  Exact comparison (all values are
-   integers or NaN); the columns of gradient features are compared by their missing pattern only (the float
-   kernel is not modelled). *)
+   integers or NaN).  The columns of gradient features are compared twice: by their missing pattern against the
+   integer model (placeholder zeros), and by VALUE against the PrimFloat model C08_Gradient (flatten_f / select_f):
+   gx, gy, magnitude bit for bit (Int64.bits_of_float), angle within 1e-12 absolute (std::atan2 is libm; the model's
+   section variable atan2 is instantiated with OCaml's Float.atan2). *)
 let mism = ref 0
 let total = ref 0
 let case_id = ref ""
@@ -44,6 +46,10 @@ let feats : feature list ref = ref []
 let store : store option ref = ref None
 let gens_rev : gfeat list list ref = ref []
 let gens_cache : gfeat list list option ref = ref None
+let kerns_rev : kernel3 list ref = ref []
+let gcells = ref 0      (* gradient values compared bit for bit *)
+let acells = ref 0      (* angle values compared within tolerance *)
+let worst_angle = ref 0.0
 let flags_st : flag list list option ref = ref None
 
 let get_store () =
@@ -64,6 +70,55 @@ let gradient_columns () : bool array =
   let gs = get_gens () in
   Array.of_list (List.concat_map (fun g -> List.init (max 0 (int_of_z (desc_cols g.g_desc))) (fun _ -> is_gradient g)) (all_feats gs))
 let norm_grad (v : int option) = match v with None -> None | Some _ -> Some 0
+
+(* ---- value-level comparison of gradient features (PrimFloat model) ------------------------------- *)
+let kernel_of_string = function
+  | "sobel" -> Sobel | "scharr" -> Scharr | "prewitt" -> Prewitt | s -> failwith ("bad kernel " ^ s)
+let atan2_m (y : Float64.t) (x : Float64.t) : Float64.t =
+  Float64.of_float (Float.atan2 (Float64.to_float y) (Float64.to_float x))
+let get_kerns () = List.rev !kerns_rev
+(* per column: -1 = not a gradient feature, else the mode 0 gx, 1 gy, 2 magnitude, 3 angle *)
+let feature_mode (g : gfeat) = if is_gradient g then int_of_z (grad_mode g) else -1
+let column_modes () : int array =
+  let gs = get_gens () in
+  Array.of_list (List.concat_map (fun g -> List.init (max 0 (int_of_z (desc_cols g.g_desc))) (fun _ -> feature_mode g)) (all_feats gs))
+let raw_rows (s : string) : string list list =
+  List.map (fun r -> if String.trim r = "" then [] else List.map String.trim (String.split_on_char ',' r)) (String.split_on_char ';' s)
+let hexs (v : float) = if Float.is_nan v then "nan" else Printf.sprintf "%h" v
+let fcell_ok (mode : int) (t : string) (m : Float64.t option) : bool =
+  match m with
+  | None -> t = "nan"
+  | Some x ->
+    let x = Float64.to_float x in
+    if t = "nan" then Float.is_nan x
+    else (match float_of_string_opt t with
+        | None -> false
+        | Some v ->
+          if mode = 3 then begin
+            incr acells;
+            let d = Float.abs (v -. x) in
+            if d > !worst_angle then worst_angle := d;
+            d <= 1e-12
+          end else begin
+            incr gcells;
+            Int64.bits_of_float v = Int64.bits_of_float x
+          end)
+let string_of_fcell = function None -> "nan" | Some x -> hexs (Float64.to_float x)
+(* compare the cells selected by `mode_of column >= 0`; returns the first difference *)
+let compare_grad line (impl : string list list) (model : Float64.t option list list) (mode_of : int -> int) =
+  let bad = ref None in
+  (try
+     List.iteri (fun i (ri, rm) ->
+         if List.length ri <> List.length rm then begin bad := Some (Printf.sprintf "row %d: %d cells, model %d" i (List.length ri) (List.length rm)); raise Exit end;
+         List.iteri (fun c (t, m) ->
+             let md = mode_of c in
+             if md >= 0 && not (fcell_ok md t m) then begin
+               bad := Some (Printf.sprintf "gradient value (mode %d %s) row %d column %d: impl %s model %s" md
+                              (match md with 0 -> "gx" | 1 -> "gy" | 2 -> "magnitude" | _ -> "angle, tolerance 1e-12") i c t (string_of_fcell m));
+               raise Exit end) (List.combine ri rm))
+       (List.combine impl model)
+   with Exit -> () | Invalid_argument _ -> bad := Some (Printf.sprintf "row count impl %d model %d" (List.length impl) (List.length model)));
+  match !bad with Some m -> report line m | None -> ()
 
 let rows_of_view_list (vs : view list) : int option list list =
   List.map (function
@@ -99,7 +154,7 @@ let handle line =
   match op with
   | "CASE" ->
     case_id := (match words rest with w :: _ -> w | [] -> "?");
-    n := 0; target := -1; feats := []; store := None; gens_rev := []; gens_cache := None; flags_st := None
+    n := 0; target := -1; feats := []; store := None; gens_rev := []; gens_cache := None; flags_st := None; kerns_rev := []
   | "DS" ->
     (match words rest with
      | [a; _; c] -> n := int_of_string a; target := int_of_string c
@@ -153,6 +208,11 @@ let handle line =
     (match words a with
      | kind :: more ->
        let ids1 = String.concat "" more in
+       (* "gradient@<kernel>": the generator's kernel3x3_type *)
+       let kind, kern = (match String.split_on_char '@' kind with
+           | [k; kn] -> (k, kernel_of_string kn)
+           | _ -> (kind, Sobel)) in
+       kerns_rev := kern :: !kerns_rev;
        gens_rev := fit (get_store ()) (gkind_of_string kind) (zlist_of_string ids1) (zlist_of_string ids2) :: !gens_rev;
        gens_cache := None; flags_st := None
      | [] -> report line "bad GEN line")
@@ -193,7 +253,14 @@ let handle line =
        let isg c = c < Array.length gc && gc.(c) in
        let impl = List.map (fun r -> List.mapi (fun c v -> if isg c then norm_grad v else v) r) (rows_of_string rhs) in
        let model = List.map (fun r -> List.map ioz r) rows in
-       compare_rows line impl model)
+       compare_rows line impl model;
+       (* the VALUES of the gradient columns, from the PrimFloat model *)
+       if Array.exists (fun b -> b) gc then begin
+         let cm = column_modes () in
+         (match flatten_f atan2_m (get_kerns ()) (reader ()) (z_of_int !n) (get_gens ()) (get_flags ()) samples with
+          | None -> report line "the float model rejects these samples"
+          | Some frows -> compare_grad line (raw_rows rhs) frows (fun c -> if c < Array.length cm then cm.(c) else -1))
+       end)
   | "SELS" | "SELM" | "SELC" | "SELT" ->
     let fs, ss = bar lhs in
     let f = z_of_int (int_of_string fs) in
@@ -210,7 +277,15 @@ let handle line =
            | "SELS", (VSclass _ :: _) | "SELM", (VMclass _ :: _) | "SELC", (VScalar _ :: _) | "SELT", (VStruct _ :: _) -> true
            | _, [] -> true | _ -> false) in
        if not kind_ok then report line "view kind differs in the model";
-       compare_rows line impl (rows_of_view_list vs))
+       compare_rows line impl (rows_of_view_list vs);
+       if grad then begin
+         let md = (match locate gs Z0 f with
+             | Some (gi, li) -> feature_mode (znth li (znth gi gs []) { g_kind = GScalar; g_o1 = Z0; g_o2 = Z0; g_desc = dflt_feature; g_colsize = Z0 })
+             | None -> -1) in
+         (match select_f atan2_m (get_kerns ()) (reader ()) (z_of_int !n) gs (get_flags ()) (zlist_of_string ss) f with
+          | None -> report line "the float model rejects this query"
+          | Some frows -> compare_grad line (raw_rows rhs) frows (fun _ -> md))
+       end)
   | "TARGETS" ->
     (match targets (get_store ()) (zlist_of_string lhs) with
      | None -> incr total; report line "the model rejects this query"
@@ -270,4 +345,4 @@ let () =
         | Invalid_argument m -> report line ("driver failure: " ^ m))
      done
    with End_of_file -> ());
-  Printf.printf "MODEL-DONE checked=%d mismatches=%d\n" !total !mism
+  Printf.printf "MODEL-DONE checked=%d mismatches=%d gradient_values_bitexact=%d angle_values=%d worst_angle_diff=%g\n" !total !mism !gcells !acells !worst_angle
